@@ -33,6 +33,41 @@ def check(ctx):
   r1(ctx)
   r2(ctx)
   r3(ctx)
+  series_lifetime(ctx)
+
+
+def series_lifetime(ctx):
+  """Recorded series live as long as the process: nothing removes a metric or a source from VARZ_DATA / VARZ_METRICS, and metrics are registered when their
+  Varz class is defined (so that what is recorded through class-level metrics is aggregated)."""
+  prog = ctx.prog
+  why = ('the aggregate of a metric is the sum over everything recorded for it: a series dropped when a connection closes (or a registry entry that only appears once an '
+         'object is instantiated) makes the aggregate forget increments that were recorded')
+  bad = []
+  for f in prog.all_funcs:
+    for nd in ast.walk(f.node):
+      t = None
+      if isinstance(nd, ast.Call) and isinstance(nd.func, ast.Attribute) and nd.func.attr in ('pop', 'popitem', 'clear', '__delitem__') and \
+         ('VARZ_DATA' in U(nd.func.value) or 'VARZ_METRICS' in U(nd.func.value)):
+        t = U(nd)
+      elif isinstance(nd, ast.Delete) and any('VARZ_DATA' in U(x) or 'VARZ_METRICS' in U(x) for x in nd.targets):
+        t = U(nd)
+      elif isinstance(nd, (ast.For, ast.comprehension)) and ('VARZ_DATA' in U(nd.iter)):
+        # code that walks every series may only read
+        body = nd.body if isinstance(nd, ast.For) else []
+        for x in [y for b_ in body for y in ast.walk(b_)]:
+          if isinstance(x, ast.Call) and isinstance(x.func, ast.Attribute) and x.func.attr in ('pop', 'clear', 'popitem'):
+            t = U(x)
+          elif isinstance(x, ast.Delete):
+            t = U(x)
+      if t:
+        bad.append('%s: %s' % (f.qualname, t[:70]))
+  ctx.ob('C18.R2', prog.cls(V, 'VarzReceiver'), 'no series or registry entry is ever removed', not bad, 'removed by %s' % bad, why)
+  meta = prog.cls(V, 'VarzMeta')
+  reg = [(m.name, c) for m in meta.methods.values() for c in ast.walk(m.node) if isinstance(c, ast.Call) and call_attr(c) == 'RegisterMetric']
+  ctx.ob('C18.R2', meta, 'metrics are registered when the Varz class is defined', bool(reg) and all(nm in ('__new__', '__init__') for nm, _ in reg),
+         'RegisterMetric is called from %s' % sorted(set(nm for nm, _ in reg)),
+         why + '; MessageDispatcher.Varz and the other class-level Varz holders are never instantiated: registration at instantiation leaves their metrics out of VARZ_METRICS, '
+         'and Aggregate skips every metric it has no type for')
 
 
 def r1(ctx):
